@@ -47,7 +47,10 @@ def strategy(tier):
         if draw(st.sampled_from([False, False, True])):
             units = [draw(st.integers(1, 3)) for _ in range(3)]     # integer-typed element sizes
         return {"nel": nel, "unit": units, "ndof": draw(st.integers(1, 4)),
-                "pts": draw(st.lists(st.lists(coord, min_size=3, max_size=3), min_size=1, max_size=4))}
+                "pts": draw(st.lists(st.lists(coord, min_size=3, max_size=3), min_size=1, max_size=4)),
+                # custom local node order ("users may override this in their program to use custom numbering"):
+                # a permutation of the default node_numbering table, assigned after construction
+                "renumber": draw(st.one_of(st.none(), st.none(), st.integers(0, 10 ** 6)))}
     return case()
 
 
@@ -78,6 +81,9 @@ def check_case(case):
     try:
         _check_grid(dom, nx, ny, nz, dim, ndof, [ux, uy, uz], bad)
         _check_shape(dom, dim, [ux, uy, uz], case["pts"], bad)
+        if case.get("renumber") is not None:
+            labels.append("custom_node_numbering")
+            _check_custom_numbering(pym, case, dim, bad)
     except Exception as e:  # the code under test raised on an admissible input
         import traceback
         bad(f"raises:{type(e).__name__}", traceback.format_exc()[-800:])
@@ -191,6 +197,47 @@ def _check_grid(dom, nx, ny, nz, dim, ndof, unit, bad):
             want[:, l * ndof + d] = conn[:, l] * ndof + d
     if dc.shape != want.shape or not np.array_equal(dc, want):
         bad("dofconnectivity", f"ndof={ndof}: differs from conn*ndof+d expansion")
+
+
+def _check_custom_numbering(pym, case, dim, bad):
+    """A second domain whose node_numbering table is permuted after construction: connectivity of single elements and
+    the shape functions must both follow the new local order (shape function l is one at the l-th connected node)."""
+    nx, ny, nz = case["nel"]
+    ux, uy, uz = case["unit"]
+    rng = np.random.default_rng(case["renumber"])
+    dom = pym.DomainDefinition(nx, ny, nz, unitx=ux, unity=uy, unitz=uz)
+    ref = pym.DomainDefinition(nx, ny, nz, unitx=ux, unity=uy, unitz=uz)       # default order: node numbers only
+    perm = rng.permutation(2 ** dim)
+    if np.array_equal(perm, np.arange(2 ** dim)):
+        perm = perm[::-1].copy()
+    table = [list(dom.node_numbering[int(q)]) for q in perm]
+    dom.node_numbering = table
+    h = np.array([ux, uy, uz][:dim], dtype=float)
+    nzz = max(nz, 1)
+    elems = {(0, 0, 0), (nx - 1, ny - 1, nzz - 1), (int(rng.integers(0, nx)), int(rng.integers(0, ny)), int(rng.integers(0, nzz)))}
+    for (i, j, k) in sorted(elems):
+        conn = np.asarray(dom.get_elemconnectivity(i, j, k)).ravel()
+        want = [int(ref.get_nodenumber(i + max(t[0], 0), j + max(t[1], 0), k + max(t[2], 0))) for t in table]
+        if conn.tolist() != want:
+            bad("custom_numbering:connectivity", f"element ({i},{j},{k}): {conn.tolist()} expected {want} for table {table}")
+            return
+    for l, t in enumerate(table):
+        N = np.asarray(dom.eval_shape_fun(np.array(t[:dim]) * h / 2))
+        e = np.zeros(2 ** dim)
+        e[l] = 1
+        if N.shape != e.shape or not np.allclose(N, e, atol=1e-14):
+            bad("custom_numbering:shape_kronecker", f"local node {l} at {t[:dim]}: N={N} for table {table}")
+            return
+    x = np.array(case["pts"][0][:dim]) * h
+    N = np.asarray(dom.eval_shape_fun(x))
+    want = np.array([np.prod([0.5 + t[a] * x[a] / h[a] for a in range(dim)]) for t in table])
+    if N.shape != want.shape or not np.allclose(N, want, atol=1e-13):
+        bad("custom_numbering:shape_value", f"N={N} expected {want} at {x}")
+    dN = np.asarray(dom.eval_shape_fun_der(x))
+    wd = np.array([[t[a] / h[a] * np.prod([0.5 + t[b] * x[b] / h[b] for b in range(dim) if b != a]) for t in table]
+                   for a in range(dim)])
+    if dN.shape != wd.shape or not np.allclose(dN, wd, atol=1e-12 / h.min()):
+        bad("custom_numbering:shape_derivative", f"dN={dN} expected {wd} at {x}")
 
 
 def _check_shape(dom, dim, unit, pts, bad):
